@@ -96,6 +96,9 @@ class _Loop(asyncio.AbstractEventLoop):
             f(*a)
 
 
+EXCS = [ValueError, ImportError, AttributeError, KeyError]  # what a deserializer (pickle.loads of foreign data) can raise
+
+
 def reference_parse(frame, our_prefix):
     """The documented framing: b'<prefix> <name> <payload>' -> (name, payload) if deliverable, 'malformed' or None (filtered)."""
     from event_model import DocumentNames
@@ -112,6 +115,8 @@ def reference_parse(frame, our_prefix):
         return None
     if name not in DocumentNames.__members__:
         return "malformed"
+    if payload[:1] == b"\xff":
+        return "malformed"  # the harness's deserializer rejects such a payload (see run())
     return (name, payload)
 
 
@@ -125,7 +130,7 @@ def make(P):
 
     def h(pa0: int, pa1: int, pa2: int, pd0: int, pd1: int, pd2: int, strict: bool,
           k1: int, n1: int, x10: int, x11: int, x12: int, x13: int, k2: int, n2: int, x20: int, x21: int, x22: int, x23: int,
-          k3: int, n3: int, x30: int, x31: int, x32: int, x33: int) -> str:
+          k3: int, n3: int, x30: int, x31: int, x32: int, x33: int, bk: int, ex: int) -> str:
         pa = _bytes([pa0, pa1, pa2], P["plen"], alpha=P["palpha"])
         pd = _bytes([pd0, pd1, pd2], P["plen"], alpha=P["palpha"])
         st = True if strict else False
@@ -138,16 +143,25 @@ def make(P):
                 plan.append(("raw", _bytes(xs, P["rawlen"], alpha=P["alpha"])))
             else:
                 plan.append(("pub", kind, NAMES[fork_int(n, 0, 2)], _bytes(xs, P["payload"], alpha=P["alpha"])))
+        # publisher B: an unrelated prefix, or a strict extension of the dispatcher's own prefix
+        pb = (pd + b"a") if (pd and any(p[0] == "pub" and p[1] == 1 for p in plan) and fork_int(bk, 0, 1) == 1) else b"b"
+        exc = EXCS[fork_int(ex, 0, P.get("excs", len(EXCS)) - 1)] if any(p[0] == "pub" and p[3][:1] == b"\xff" for p in plan) else ValueError
         with notrace():
-            return run(pa, pd, st, plan)
+            return run(pa, pd, st, plan, pb, exc)
 
-    def run(pa, pd, strict, plan):
+    def run(pa, pd, strict, plan, pb=b"b", exc=ValueError):
         bus = _Bus()
         zmq, azmq = _fake_zmq(bus)
         ident = lambda b: b  # noqa: E731
-        pubs = [Publisher("h:1", prefix=pa, zmq=zmq, serializer=ident), Publisher("h:1", prefix=b"b", zmq=zmq, serializer=ident)]
+
+        def deser(b):
+            if b[:1] == b"\xff":
+                raise exc("cannot deserialize")
+            return b
+
+        pubs = [Publisher("h:1", prefix=pa, zmq=zmq, serializer=ident), Publisher("h:1", prefix=pb, zmq=zmq, serializer=ident)]
         loop = _Loop()
-        disp = RemoteDispatcher("h:2", prefix=pd, loop=loop, zmq=zmq, zmq_asyncio=azmq, deserializer=ident, strict=strict)
+        disp = RemoteDispatcher("h:2", prefix=pd, loop=loop, zmq=zmq, zmq_asyncio=azmq, deserializer=deser, strict=strict)
         got = []
         disp.subscribe(lambda name, doc: got.append((name, doc)))
         disp._RemoteDispatcher__factory()
@@ -212,12 +226,12 @@ def _fns():
 
 
 register(Harness("c33_zmq", "C33", make,
-                 {"quick": dict(frames=2, payload=1, plen=1, rawlen=2, palpha=[0x61, 0x62], alpha=[0x20, 0x61, 0xFF], shards=18, budget_s=200, per_path_s=20),
+                 {"quick": dict(frames=2, payload=1, plen=1, rawlen=2, excs=2, palpha=[0x61, 0x62], alpha=[0x20, 0x61, 0xFF], shards=18, budget_s=200, per_path_s=20),
                   "thorough": dict(frames=3, payload=2, plen=2, rawlen=3, palpha=[0x61, 0x62, 0xFF], alpha=[0x20, 0x61, 0x62, 0xFF], shards=64, budget_s=2400, per_path_s=30)},
                  goals=["delivered", "filtered-by-prefix", "malformed-frame"], functions=_fns, mode="schedule",
                  symbolic="publisher prefix and dispatcher prefix: length <= plen over byte classes {a, b, 0xff}; `frames` frames, each published by publisher A "
-                 "(that prefix) or B (prefix b'b') with name in {start, event, bogus (not a document name)} and payload of length <= `payload` over "
+                 "(that prefix) or B (prefix b'b' or a strict extension of the dispatcher's prefix) with name in {start, event, bogus (not a document name)} and payload of length <= `payload` over "
                  "{space, a, b, 0xff}, or a raw frame of <= rawlen bytes over the same classes; strict flag",
                  out_of_bound="bytes are class representatives, not symbolic (CrossHair realises bytes in join/split); pickle; real sockets; the Proxy",
-                 stubs=["fake zmq / zmq.asyncio modules (in-memory FIFO bus: each frame delivered intact and in order)", "identity serializer on bytes",
+                 stubs=["fake zmq / zmq.asyncio modules (in-memory FIFO bus: each frame delivered intact and in order)", "identity serializer on bytes; the deserializer rejects payloads starting with 0xff by raising one of ValueError / AttributeError / KeyError / ImportError (solver fork)",
                         "fake loop whose call_soon queue is drained after the poller stops"], require_exhaustive=True))
